@@ -839,7 +839,14 @@ func (h *handler1) handleMqttSn(ctx context.Context, pkt snPkts.Packet) error {
 				}
 			}
 			h.pktBuffer = nil
-			return h.snSend(snPkts1.NewPingresp())
+			if err := h.snSend(snPkts1.NewPingresp()); err != nil {
+				return err
+			}
+			// The client returns to the asleep state after PINGRESP.
+			// See MQTT-SN specification v. 1.2, chapter 6.14
+			// Must be set after snSend otherwise the packet will be queued...
+			h.setState(util.StateAsleep)
+			return nil
 		} else {
 			mqPkt := mqPkts.NewControlPacket(mqPkts.Pingreq).(*mqPkts.PingreqPacket)
 			return h.mqttSend(mqPkt)
